@@ -1,6 +1,7 @@
 """C04 - risk measures obey the convex-risk-measure axioms.
 Certificates by composition rules (curvature, monotonicity, response to cash shifts and positive scaling) for the functionals
-and the loss modules; parameters restricted to the admissible ranges, whose constructor guards are checked to exist."""
+and the loss modules; parameters restricted to the admissible ranges, whose constructor guards are checked to exist.
+R3: the entropic risk is non-decreasing in the risk aversion (a*rho is a cumulant generating function: convex in a, zero at a=0)."""
 import ast
 
 import sympy as sp
@@ -91,6 +92,7 @@ def check(ctx, run):
         if not run.findings:
             raise
         run.notes.append(f"quadratic CVaR objective/bracket not analysable after the certificate failed: {ex}")
+    risk_aversion_rule(ctx, run)
     # constructor guards
     run.require("C04.R2", 5)
     for cls, (pname, want_set, g) in GUARDS.items():
@@ -148,6 +150,52 @@ def _bool(c, pname, z):
 
     u, v = val(c.args[0]), val(c.args[1])
     return None if u is None or v is None else rel(u, v)
+
+
+def risk_aversion_rule(ctx, run):
+    """R3: the entropic risk is non-decreasing in the risk aversion a.  Certificate: a * rho_a(x) is the cumulant generating function
+    K(a) = log mean exp(a * g(x)) of g(x) = -x with g free of a; K is convex in a (Hoelder) and K(0) = 0, hence K(a)/a is non-decreasing
+    on a > 0 (chord slope of a convex function through the origin).  Decided on the term of the functional and of the module's forward."""
+    from ..samplealg import MEAN, SampleAlgebra, linearize, xi
+    prog, interp = ctx.prog, ctx.interp
+    run.require("C04.R3", 2)
+    run.trusted.append("lemma: the cumulant generating function K(a) = log E exp(a Y) is convex with K(0) = 0, so K(a)/a is non-decreasing in a > 0")
+    x = W.tensor("x")
+    cases = [("entropic_risk_measure", E.functional(ctx, "entropic_risk_measure"), [], dict(input=x, a=W.fl("a")), None)]
+    fwd = prog.lookup_method(L + "EntropicRiskMeasure", "forward")
+    if fwd is None:
+        raise AnalysisError("anchor vanished: EntropicRiskMeasure.forward")
+    cases.append(("EntropicRiskMeasure.forward", fwd, [x, 0.0], {}, Obj(L + "EntropicRiskMeasure", "erm", dict(a=W.fl("a")))))
+    for label, fi, args, kw, so in cases:
+        for r in [r for r in interp.explore(fi, args, kw, self_obj=so) if not r["raises"]]:
+            A = SampleAlgebra(assume_positive={"a"})
+            a = A.sym("a")
+            try:
+                rho = A.conv(r["value"])
+            except (TypeError, NotImplementedError, ValueError) as ex:
+                raise AnalysisError(f"C04.R3 {label}: term not convertible ({ex})")
+            raw = sp.expand_log(sp.expand(rho * a), force=True)
+            K = sp.simplify(linearize(raw))
+            wb = sp.Wild("wb")
+            problems = []
+            g = None
+            m = K.match(sp.log(MEAN(sp.exp(wb))))
+            if m is None:
+                problems.append(f"a*rho = {K} is not of the form log mean exp(a*g(x))")
+            else:
+                g = sp.simplify(m[wb] / a)
+                if g.has(a):
+                    problems.append(f"the exponent {m[wb]} is not linear in a")
+            if not problems:
+                k0 = sp.simplify(linearize(raw.subs(a, 0)))
+                if k0 != 0:
+                    problems.append(f"K(0) = {k0}, must vanish")
+            ok = not problems
+            run.oblige("C04.R3", f"{label}: a*rho is the cumulant generating function of -x (rho non-decreasing in a)", ok, "; ".join(problems) or f"K(a) = {K}, g = {g}",
+                       sample={"rule": "C04.R3", "function": label, "K": str(K)})
+            if not ok:
+                run.fail(Finding("C04.R3", fi.qualname, f"{label}: {'; '.join(problems)}", "the entropic risk is not certified non-decreasing in the risk aversion",
+                                 file=str(prog.modules[fi.module].path), line=fi.node.lineno))
 
 
 def judge(run, prog, fi, label, cv, want):
